@@ -4,7 +4,9 @@ package main
 // (a barrier releases them together, and again every 500 calls) against a scripted peer that answers every LSTAT with
 // a size computed from the PATH it carries. Every call must get the answer to its own path (a duplicated request id hands
 // one caller the other's reply, or leaves a caller waiting for ever), and the peer must never see an id that is still
-// outstanding. Oracle only.
+// outstanding. Every other round starts with the id counter moved to shortly before 2^32 (hook VerifSetNextID), so that
+// the ids of the round run across the wrap; the ids the peer saw in a round are compared with coq/Conn/IdWrap.v ids_from
+// (count, sum, xor, number of zero ids).
 
 import (
 	"encoding/binary"
@@ -36,7 +38,9 @@ func runIDs(c *Ctx) {
 	}
 	c1, c2 := net.Pipe()
 	var dupIDs int64
-	go func() { // the peer
+	var seenMu sync.Mutex
+	var seenN, seenSum, seenXor, seenZero uint64 // ids of the current round, as the peer received them
+	go func() {                                  // the peer
 		defer c2.Close()
 		fr, err := readFrame(c2)
 		if err != nil || fr.Typ != fxpInit {
@@ -71,6 +75,14 @@ func runIDs(c *Ctx) {
 			}
 			outstanding[fr.ID] = true
 			mu.Unlock()
+			seenMu.Lock()
+			seenN++
+			seenSum += uint64(fr.ID)
+			seenXor ^= uint64(fr.ID)
+			if fr.ID == 0 {
+				seenZero++
+			}
+			seenMu.Unlock()
 			path := ""
 			if len(fr.Body) >= 4 {
 				if l := binary.BigEndian.Uint32(fr.Body); int(l)+4 <= len(fr.Body) {
@@ -89,6 +101,14 @@ func runIDs(c *Ctx) {
 	rounds := per / 500
 	for r := 0; r < rounds; r++ {
 		var wrong, failed int64
+		if r%2 == 1 {
+			// G*500 calls follow; start between 1 and G*500-1 ids before the wrap
+			sftp.VerifSetNextID(cl, uint32(1<<32-1-uint64(c.Rng.Intn(G*500-1))))
+		}
+		c0 := sftp.VerifNextID(cl)
+		seenMu.Lock()
+		seenN, seenSum, seenXor, seenZero = 0, 0, 0, 0
+		seenMu.Unlock()
 		var firstWrong atomic.Value
 		var wg sync.WaitGroup
 		start := make(chan struct{})
@@ -113,8 +133,16 @@ func runIDs(c *Ctx) {
 		}
 		close(start)
 		returned := cctWait(&wg, 20*time.Second)
-		n := c.Case("idstress", kvi("round", r), kvi("goroutines", G), kvi("calls", 500))
+		n := c.Case("idswrap", kvi("round", r), kvi("goroutines", G), kvi("calls", 500), kvx("c0", uint64(c0)), kvi("k", G*500))
 		c.NT(n)
+		if returned && atomic.LoadInt64(&failed) == 0 {
+			seenMu.Lock()
+			c.Obs(n, fmt.Sprintf("n=%d", seenN), fmt.Sprintf("sum=%d", seenSum), fmt.Sprintf("xor=%d", seenXor), fmt.Sprintf("zeros=%d", seenZero))
+			seenMu.Unlock()
+			if uint64(c0)+uint64(G*500) >= 1<<32 {
+				c.Stat("ids_rounds_across_the_wrap")
+			}
+		}
 		c.Stat("ids_rounds")
 		switch {
 		case !returned:
